@@ -1,7 +1,7 @@
 #!/bin/bash
 # Sensitivity helper (not a registered check): builds the simulator against a scratch
 # worktree of /repo with a patch applied and runs one mode on it.
-# usage: mutant.sh <patch-file|-> <mode> <runs> [race] [seed]   ('-': no patch; REVERT=<commit> reverts a commit instead)
+# usage: mutant.sh <patch-file|-> <mode> <runs> [plain|race|instr] [seed]   ('-': no patch; REVERT=<commit> reverts a commit instead)
 set -u
 PATCH=$1; MODE=$2; RUNS=$3; RACE=${4:-plain}; SEED=${5:-1}
 WT=/var/tmp/mut_$$
@@ -13,8 +13,9 @@ if [ -n "${REVERT:-}" ]; then (cd $WT && git revert --no-edit -n $REVERT) || exi
 if [ "$PATCH" != "-" ]; then (cd $WT && git apply "$PATCH") || { echo "patch does not apply"; exit 2; }; fi
 (cd $WT && go build ./... ) || { echo "mutant does not build"; exit 2; }
 B=/var/tmp/mutb_$$; mkdir -p $B
-VERIF_REPO=$WT VERIF_BUILD=$B /verif/build_sim.sh $([ "$RACE" = race ] && echo race || echo plain) || exit 2
+VERIF_REPO=$WT VERIF_BUILD=$B /verif/build_sim.sh $([ "$RACE" = race ] && echo race || ([ "$RACE" = instr ] && echo instr || echo plain)) || exit 2
 BIN=$B/sim.test; EXTRA=""
+if [ "$RACE" = instr ]; then BIN=$B/sim.instr.test; fi
 if [ "$RACE" = race ]; then BIN=$B/sim.race.test; EXTRA="-racelog=$B/race -noref"; export GORACE="log_path=$B/race halt_on_error=0"; fi
 NW=${WORKERS:-8}; PER=$((RUNS/NW))
 for k in $(seq 0 $((NW-1))); do
